@@ -180,7 +180,7 @@ theorem fail_closed_frontend_partial (v : Variant) (hv : v.usedFront = true) (w 
 
 def uOk (target : Nat) (path : String) : Url :=
   { parseOk := true, proto := .http, isIP := true, dnsOk := true, hasPort := true, hasNs := true,
-    svcFound := true, target := target, path := path }
+    nsOk := true, svcFound := true, target := target, path := path }
 
 /-- `::malformed` -/
 def uMalformed : Url := { uOk 0 "" with parseOk := false }
